@@ -1182,6 +1182,193 @@ func c08RaceStream(t *testing.T, st *VStream, stats *VStats, log *logrus.Logger,
 	}
 }
 
+// ---------------------------------------------------------------- the request path (HandleWithResponseWriter_)
+
+type c08Writer struct{ msg *dnsmessage.Msg }
+
+func (w *c08Writer) LocalAddr() net.Addr       { return nil }
+func (w *c08Writer) RemoteAddr() net.Addr      { return nil }
+func (w *c08Writer) TsigStatus() error         { return nil }
+func (w *c08Writer) TsigTimersOnly(bool)       {}
+func (w *c08Writer) Hijack()                   {}
+func (w *c08Writer) Close() error              { return nil }
+func (w *c08Writer) Write([]byte) (int, error) { return 0, nil }
+func (w *c08Writer) WriteMsg(m *dnsmessage.Msg) error {
+	w.msg = m.Copy()
+	return nil
+}
+
+type c08Upstream struct {
+	calls                atomic.Int64
+	rttl                 uint32
+	ans, n, ns, rcode    int
+}
+
+func (u *c08Upstream) ForwardDNS(ctx context.Context, data []byte) (*dnsmessage.Msg, error) {
+	u.calls.Add(1)
+	time.Sleep(time.Second) // the upstream round trip (virtual time)
+	var q dnsmessage.Msg
+	if err := q.Unpack(data); err != nil {
+		return nil, err
+	}
+	m := new(dnsmessage.Msg)
+	m.SetReply(&q)
+	m.Rcode = u.rcode
+	m.RecursionAvailable = true
+	m.Authoritative = true // marks "this is the upstream's own message" (replies packed by the cache never carry AA)
+	m.Answer, m.Ns, m.Extra = c08Records(dnsmessage.CanonicalName(q.Question[0].Name), q.Question[0].Qtype, u.rttl, u.ans, u.n, u.ns)
+	return m, nil
+}
+func (u *c08Upstream) Close() error { return nil }
+
+// c08AskHistory drives whole requests through HandleWithResponseWriter_ (as-is route, one resolver
+// address) against a scripted upstream that takes 1 s of virtual time: key derivation at the call
+// site, first lookup, `go backgroundRefresh` (the real one: dialSend → NormalizeAndCacheDnsResp_ →
+// clean-up), singleflight + the post-insert lookup.  Observed: latency, number of upstream calls,
+// whether the reply came from the cache, answer id / count / TTL.
+func c08AskHistory(t *testing.T, r *VRand, st *VStream, stats *VStats, log *logrus.Logger, nOps int) {
+	synctest.Test(t, func(t *testing.T) {
+		originalFactory := dnsForwarderFactory
+		defer func() { dnsForwarderFactory = originalFactory }()
+		up := &c08Upstream{}
+		dnsForwarderFactory = func(*dns.Upstream, dialArgument, *logrus.Logger) (DnsForwarder, error) { return up, nil }
+		routing, err := dns.New(&config.Dns{Routing: config.DnsRouting{
+			Request:  config.DnsRequestRouting{Fallback: "asis"},
+			Response: config.DnsResponseRouting{Fallback: "accept"},
+		}}, &dns.NewOption{Logger: log, UpstreamReadyCallback: func(*dns.Upstream) error { return nil }})
+		if err != nil {
+			panic(err)
+		}
+		w := &c08World{log: log, st: st, stats: stats}
+		cfg := c08RandCfg(r, stats)
+		dnsCacheJanitorInterval = 24 * 365 * 50 * time.Hour
+		opt := c08Option(cfg, log)
+		opt.BestDialerChooser = func(ctx context.Context, req *udpRequest, upstream *dns.Upstream) (*dialArgument, error) {
+			return &dialArgument{l4proto: consts.L4ProtoStr_UDP, ipversion: consts.IpVersionStr_4, bestTarget: req.realDst}, nil
+		}
+		out := VRecover(func() string {
+			c, err := NewDnsController(routing, opt)
+			if err != nil {
+				return "err:" + err.Error()
+			}
+			w.c = c
+			return "cfg " + w.cfgObserved()
+		})
+		st.Emit("cfg "+cfg.opStr(), out)
+		defer func() { _ = w.c.Close() }()
+		stats.Inc("history.request_path")
+		dst := netip.MustParseAddrPort("8.8.8.8:53")
+		nSlots := r.Range(1, 3)
+		bases := make([]string, nSlots)
+		for i := range bases {
+			bases[i] = c08BaseNames[r.Intn(len(c08BaseNames))]
+		}
+		now := time.Now().UnixNano()
+		var sh []c08Shadow
+		ansCounter := r.Intn(1000)
+		for i := 0; i < nOps; i++ {
+			next := c08NextTime(r, stats, now, cfg, sh)
+			if next-now > 4000*c08Sec {
+				next = now + 4000*c08Sec
+			}
+			now = next
+			if r.Chance(0.08) {
+				gone := w.jan(now)
+				stats.Add("janitor.evicted", len(gone))
+				continue
+			}
+			name := c08NameVariant(r, stats, bases[r.Intn(nSlots)])
+			qtype := []uint16{1, 1, 28, 16}[r.Intn(4)]
+			ansCounter++
+			up.rttl = []uint32{0, 0, 1, 2, 5, 16, 17, 30, 60, 300}[r.Intn(10)]
+			up.ans, up.n, up.ns, up.rcode = ansCounter, []int{1, 1, 2, 0}[r.Intn(4)], []int{0, 0, 1, 3}[r.Intn(4)], 0
+			if r.Chance(0.05) {
+				up.rcode = 3
+			}
+			w.sleepUntil(now)
+			op := fmt.Sprintf("ask t=%d name=%s qtype=%d dst=%s rttl=%d ans=%d n=%d ns=%d rcode=%d", now, c08Hex(name), qtype, c08Hex(dst.String()), up.rttl, up.ans, up.n, up.ns, up.rcode)
+			res := VRecover(func() string {
+				before := up.calls.Load()
+				q := new(dnsmessage.Msg)
+				q.SetQuestion(dnsmessage.Fqdn(name), qtype)
+				q.Question[0].Name = dnsmessage.Fqdn(name) // keep the asker's letter case
+				wr := &c08Writer{}
+				req := &udpRequest{realSrc: netip.MustParseAddrPort("192.0.2.10:41000"), realDst: dst, routingResult: &bpfRoutingResult{}}
+				t0 := time.Now()
+				if err := w.c.HandleWithResponseWriter_(context.Background(), q, req, wr); err != nil {
+					return "err:" + err.Error()
+				}
+				lat := time.Since(t0)
+				// a refresh started by this request finishes one round trip later
+				time.Sleep(time.Second - lat)
+				synctest.Wait()
+				m := wr.msg
+				if m == nil {
+					return "no-reply"
+				}
+				ansID := "-"
+				if len(m.Answer) > 0 {
+					switch a := m.Answer[0].(type) {
+					case *dnsmessage.A:
+						ip := a.A.To4()
+						ansID = fmt.Sprint(int(ip[2])<<8 | int(ip[3]))
+					case *dnsmessage.AAAA:
+						ip := a.AAAA.To16()
+						ansID = fmt.Sprint(int(ip[14])<<8 | int(ip[15]))
+					}
+				}
+				ttl, first := "-", true
+				for _, sec := range [][]dnsmessage.RR{m.Answer, m.Ns, m.Extra} {
+					for _, rr := range sec {
+						v := fmt.Sprint(rr.Header().Ttl)
+						if first {
+							ttl, first = v, false
+						} else if ttl != v {
+							ttl = "mixed"
+						}
+					}
+				}
+				if m.Authoritative {
+					ttl = "up" // not from the cache: the TTLs are the upstream's business
+				}
+				return fmt.Sprintf("ask lat=%d fw=%d rcode=%d ans=%s n=%d ttl=%s", lat.Nanoseconds(), up.calls.Load()-before, m.Rcode, ansID, len(m.Answer), ttl)
+			})
+			now += c08Sec
+			st.Emit(op, res)
+			stats.Inc("op.ask")
+			if strings.Contains(res, "lat=0 ") {
+				stats.Inc("ask.answered_from_cache_at_once")
+				if strings.Contains(res, "fw=1") {
+					stats.Inc("ask.stale_hit_started_refresh")
+				}
+			} else {
+				stats.Inc("ask.forwarded")
+			}
+			eff := int64(up.rttl)
+			if up.n == 0 {
+				eff = 120
+			}
+			if f, ok := cfg.fixedFor(name); ok {
+				eff = int64(f)
+			}
+			key := w.c.responseCacheKey(w.c.cacheKey(name, qtype), &udpRequest{realDst: dst}, consts.DnsRequestOutboundIndex_AsIs, nil)
+			found := false
+			for j := range sh {
+				if sh[j].key == key {
+					found = true
+					if strings.Contains(res, "fw=1") {
+						sh[j] = c08Shadow{key: key, ins: now, deadline: now + eff*c08Sec, pttl: max(eff, 0)}
+					}
+				}
+			}
+			if !found {
+				sh = append(sh, c08Shadow{key: key, ins: now, deadline: now + eff*c08Sec, pttl: max(eff, 0)})
+			}
+		}
+		w.emitKeys()
+	})
+}
+
 func c08HeapStream(r *VRand, st *VStream, stats *VStats, n int) {
 	for it := 0; it < n; it++ {
 		sz := r.Intn(14)
@@ -1248,6 +1435,10 @@ func TestVerifC08(t *testing.T) {
 	// the real janitor goroutine must not fire on its own: the histories decide when it runs
 	dnsCacheJanitorInterval = 24 * 365 * 50 * time.Hour
 
+	nAsk := VEnvInt("C08_ASK", 60)
+	if VThorough() {
+		nAsk = VEnvInt("C08_ASK", 1500)
+	}
 	nHist, nOps, nHeap, nKeys, nRace := VEnvInt("C08_HIST", 250), 60, 600, 400, VEnvInt("C08_RACE", 300)
 	if VThorough() {
 		nHist, nOps, nHeap, nKeys, nRace = VEnvInt("C08_HIST", 8000), 140, 6000, 4000, VEnvInt("C08_RACE", 4000)
@@ -1269,6 +1460,9 @@ func TestVerifC08(t *testing.T) {
 			n = nOps * 3
 		}
 		c08History(t, r.Fork(), st, stats, log, n, i%4 == 3)
+	}
+	for i := 0; i < nAsk; i++ {
+		c08AskHistory(t, r.Fork(), st, stats, log, 40)
 	}
 	st.Emit("cov", "cov") // the model driver answers with its branch counters (ignored by the diff)
 }
